@@ -6,6 +6,9 @@
 
   * `Plain v`       — plain data without flags: no unparsed string, no layer list; in every
                       mapping the keys are marker-free and distinct and both flag sets are empty.
+  * `RefFree v`     — the same, except that strings may still be unparsed `String`s without a
+                      reference marker (what the YAML decoder produces); `norm v` turns them
+                      into literals, which is all that interpolation does to such data.
   * `Tree`          — a merged parameter tree.  `leaf v` holds a value that is not merged
                       member-wise (null, scalar, sequence), `node ts` a mapping whose members are
                       trees again, and `bad e` a parameter *poisoned* by a merge conflict.
@@ -16,6 +19,10 @@
   * `merged cur vs` — the fold of `deep` over a stack of layers, from `null`;
     `deepAll cur vs` its value.
   * `deepParams ms` — the same for whole parameter mappings (layers of classes).
+  * `deepEsO`, `deepParamsO`, `valuesAtO` — the same with override keys (`~k`) at the top level
+                      of a layer: an override write replaces the member and restarts its stack.
+  * `valuesAt k ms` — the stack of key `k`: what the layers write to it, in layer order;
+    `keyOrder ms` — all keys in order of first appearance.
 
   Why a tree with poison and not simply `Value → Value → Except Err Value`?  Because the code
   under verification does not report a conflict *inside* a mapping at the moment the two layers
@@ -52,6 +59,49 @@ end
 
 /-- A layer of parameters: a mapping without flags whose entries are plain. -/
 def PlainLayer (m : Mapping) : Prop := Plain m.toValue
+
+/-! ## Reference-free source data -/
+
+mutual
+/-- What `Value::interpolate` makes of reference-free data: every unparsed string (`String`)
+becomes a literal; nothing else changes. -/
+def norm : Value → Value
+  | .str s => .lit s
+  | .seq l => .seq (normL l)
+  | .vl l => .vl (normL l)
+  | .map es ck ok => .map (normEs es) ck ok
+  | v => v
+def normL : List Value → List Value
+  | [] => []
+  | v :: vs => norm v :: normL vs
+def normEs : List (Key × Value) → List (Key × Value)
+  | [] => []
+  | (k, v) :: es => (k, norm v) :: normEs es
+end
+
+mutual
+/-- Reference-free, marker-free, flag-free source data: as `Plain`, except that strings may
+still be unparsed (`Value::String`, which is what the YAML decoder produces) provided they
+contain no reference marker `${` / `$[`. -/
+def RefFree : Value → Prop
+  | .str s => containsMarker s = false
+  | .vl _ => False
+  | .map es ck ok => RefFreeEs es ∧ (keys es).Nodup ∧ ck = [] ∧ ok = []
+  | .seq l => RefFreeL l
+  | _ => True
+def RefFreeL : List Value → Prop
+  | [] => True
+  | v :: vs => RefFree v ∧ RefFreeL vs
+def RefFreeEs : List (Key × Value) → Prop
+  | [] => True
+  | (k, v) :: es => CleanKey k ∧ RefFree v ∧ RefFreeEs es
+end
+
+/-- A layer of parameters as decoded from a reference-free, marker-free class file. -/
+def RefFreeLayer (m : Mapping) : Prop := RefFree m.toValue
+
+/-- The layer with its strings turned into literals. -/
+def normLayer (m : Mapping) : Mapping := ⟨normEs m.es, m.ck, m.ok⟩
 
 /-! ## Parameter trees -/
 
@@ -161,9 +211,12 @@ def deepAll (cur : List Str) (vs : List Value) : Except Err Value := resolve (me
 /-- The binary reading: one more layer `b` over an already merged value `a`. -/
 def merge2 (cur : List Str) (a b : Value) : Except Err Value := resolve (deep cur (ofValue a) b)
 
-/-- The trees of all top-level parameters after the layers `ms` (mappings) were merged in order. -/
-def mergedParams (ms : List Mapping) : List (Key × Tree) :=
-  ms.foldl (fun ts m => deepEs [] ts m.es) []
+/-- The member trees after the mappings `ms` were merged in order, for a mapping at path `cur`. -/
+def mergedEs (cur : List Str) (ms : List Mapping) : List (Key × Tree) :=
+  ms.foldl (fun ts m => deepEs cur ts m.es) []
+
+/-- The trees of all top-level parameters after the layers `ms` were merged in order. -/
+def mergedParams (ms : List Mapping) : List (Key × Tree) := mergedEs [] ms
 
 /-- **Deep merge of whole parameter mappings.** -/
 def deepParams (ms : List Mapping) : Except Err Mapping :=
@@ -178,6 +231,54 @@ def valuesAt (k : Key) : List Mapping → List Value
     match lookup k m.es with
     | some v => v :: valuesAt k ms
     | none => valuesAt k ms
+
+/-- First-appearance order: add `k` unless it is there already. -/
+def addKey (ks : List Key) (k : Key) : List Key := if k ∈ ks then ks else ks ++ [k]
+
+/-- All keys of the layers, each once, in the order of first appearance. -/
+def keyOrder (ms : List Mapping) : List Key :=
+  ms.foldl (fun ks m => (keys m.es).foldl addKey ks) []
+
+/-- A merge-conflict error (the only kind of error `deep` produces). -/
+def IsConflict (e : Err) : Prop := ∃ path over onto, e = .mergeConflict path over onto
+
+/-- A merge-conflict error whose parameter path is `cur` or lies below it (`cur.k₁.….kₙ`). -/
+def ConflictBelow (cur : List Str) (e : Err) : Prop :=
+  ∃ ks over onto, e = .mergeConflict (pathText (cur ++ ks)) over onto
+
+/-! ## Override keys of a layer (top level) -/
+
+/-- As `deepEs`, for a layer whose keys in `ok` were written with the override marker (`~k`;
+`Mapping::override_keys` of the stored layer): such a member is *replaced* by the layer's value
+instead of being merged with it. -/
+def deepEsO (cur : List Str) (ok : List Key) (ts : List (Key × Tree)) :
+    List (Key × Value) → List (Key × Tree)
+  | [] => ts
+  | (k, v) :: es =>
+    deepEsO cur ok
+      (upsert k (fun t => if k ∈ ok then ofValue v else deep (cur ++ [k.display]) t v) (ofValue v) ts)
+      es
+
+/-- The trees of the top-level parameters after layers with override keys were merged. -/
+def mergedParamsO (ms : List Mapping) : List (Key × Tree) :=
+  ms.foldl (fun ts m => deepEsO [] m.ok ts m.es) []
+
+/-- Deep merge of parameter mappings with top-level override keys: the entries of the result. -/
+def deepParamsO (ms : List Mapping) : Except Err (List (Key × Value)) :=
+  resolveEs (mergedParamsO ms)
+
+/-- The stack of key `k` after one more layer: an override write restarts it. -/
+def stackStep (k : Key) (acc : List Value) (m : Mapping) : List Value :=
+  match lookup k m.es with
+  | none => acc
+  | some v => if k ∈ m.ok then [v] else acc ++ [v]
+
+/-- The values that count for key `k`: those written from the last override of `k` on. -/
+def valuesAtO (k : Key) (ms : List Mapping) : List Value := ms.foldl (stackStep k) []
+
+/-- A stored layer whose values are reference-free and flag-free, whose keys are clean and
+distinct, without constant keys; `ok` (the keys written as `~k`) is arbitrary. -/
+def OverrideLayer (m : Mapping) : Prop := RefFreeEs m.es ∧ (keys m.es).Nodup ∧ m.ck = []
 
 /-! ## Merging the layers with the code's own `Mapping::merge` -/
 
